@@ -683,3 +683,30 @@ pub fn drive_repair(cx: &mut Ctx) {
         }
     }
 }
+
+// ---------------------------------------------------------------------------------------
+// C09 / C11: TLC-generated histories of the cache model, replayed with hook observation
+// ---------------------------------------------------------------------------------------
+pub fn drive_caches(cx: &mut Ctx, hist_file: &str, dim: usize) {
+    let text = std::fs::read_to_string(hist_file).expect("cannot read histories");
+    for (i, line) in text.lines().enumerate() {
+        if line.trim().is_empty() {
+            continue;
+        }
+        if !cx.mine() {
+            continue;
+        }
+        let v: serde_json::Value = serde_json::from_str(line).expect("bad history line");
+        let hist = v.as_array().cloned().unwrap_or_default();
+        cx.start_case(format!("caches D={dim} hist#{i}"));
+        let k = i % 2;
+        let mut ctr = cx.uuid_ctr;
+        match (dim, k) {
+            (2, 0) => crate::caches::run_history::<FastKernel<f64>, 2>(&mut cx.tr, &hist, &mut ctr),
+            (2, _) => crate::caches::run_history::<RobustKernel<f64>, 2>(&mut cx.tr, &hist, &mut ctr),
+            (_, 0) => crate::caches::run_history::<FastKernel<f64>, 3>(&mut cx.tr, &hist, &mut ctr),
+            (_, _) => crate::caches::run_history::<RobustKernel<f64>, 3>(&mut cx.tr, &hist, &mut ctr),
+        }
+        cx.uuid_ctr = ctr;
+    }
+}
